@@ -3,6 +3,8 @@ import SiaModel.Ids.Spec
 import SiaModel.Gen.FactsIds
 import SiaModel.Gen.FactsSchema
 import SiaProofs.Lemmas.IdsSem
+import SiaProofs.Lemmas.IdsWF
+import SiaProofs.Props.C16
 /-!
 # C12 — IDs and sighashes bind exactly the effect-bearing content; block IDs bind all
 
@@ -110,5 +112,541 @@ theorem c12_distinguished_preimages_differ {a b : String} (ha : a ∈ Spec.disti
 
 example : dist "id/siacoinoutput" ++ [1, 2] ≠ dist "id/siafundoutput" ++ [1, 2] :=
   c12_distinguished_preimages_differ (a := "id/siacoinoutput") (b := "id/siafundoutput") (by decide) (by decide) (by decide) _ _
+
+/-! ## the v2 transaction id
+
+Full statement (NOT true of the code at the pinned commit):
+
+    c12_v2_id_iff : HashInj H → (txid H t = txid H t' ↔ strip t = strip t')
+
+Proved: the same equivalence for well-formed `t`, `t'` with the two exclusions made explicit
+hypotheses — the same list of resolution kinds, the same claim addresses — each exclusion with a
+machine-checked witness that it cannot be dropped. -/
+
+/-- `⇐`, unconditionally: the id only reads the effect-bearing content -/
+theorem c12_v2_id_of_strip (H : List UInt8 → List UInt8) (t t' : V2Txn) (h : strip t = strip t') :
+    txid H t = txid H t' ∧ H (inputSigPre t) = H (inputSigPre t') := by
+  have hs : stripCode codeBindsClaimAddress t = stripCode codeBindsClaimAddress t' := by
+    cases hb : codeBindsClaimAddress
+    · exact ((strip_eq_iff t t').1 h).1
+    · exact h
+  have := semEncodeG_of_stripCode _ hs
+  simp only [txid, txidPre, txidPreG, inputSigPre, inputSigPreG, this, and_self]
+
+/-- the equivalence for both values of the claim-address flag -/
+theorem v2_pre_iff (b : Bool) (t t' : V2Txn) (hw : WFG b t) (hw' : WFG b t') (hk : t.kinds = t'.kinds)
+    (hc : t.siafundInputs.map (·.claimAddress) = t'.siafundInputs.map (·.claimAddress)) :
+    semEncodeG b t = semEncodeG b t' ↔ strip t = strip t' := by
+  constructor
+  · intro h
+    have hs := semEncodeG_inj b hw hw' hk h
+    cases b
+    · exact (strip_eq_iff t t').2 ⟨hs, hc⟩
+    · exact hs
+  · intro h
+    apply semEncodeG_of_stripCode
+    cases b
+    · exact ((strip_eq_iff t t').1 h).1
+    · exact h
+
+/-- **c12_v2_id_iff_partial**: under `HashInj`, for well-formed transactions with the same
+resolution kinds and the same siafund claim addresses, the transaction ids are equal iff the
+effect-bearing contents are equal. -/
+theorem c12_v2_id_iff_partial (H : List UInt8 → List UInt8) (hH : HashInj H) (t t' : V2Txn)
+    (hw : WFG codeBindsClaimAddress t) (hw' : WFG codeBindsClaimAddress t') (hk : t.kinds = t'.kinds)
+    (hc : t.siafundInputs.map (·.claimAddress) = t'.siafundInputs.map (·.claimAddress)) :
+    txid H t = txid H t' ↔ strip t = strip t' := by
+  rw [← v2_pre_iff codeBindsClaimAddress t t' hw hw' hk hc]
+  constructor
+  · intro h
+    exact List.append_cancel_left (hH _ _ h)
+  · intro h
+    simp only [txid, txidPre, txidPreG, h]
+
+/-- the well-formedness hypothesis made explicit: it follows from the typing conditions the Go types
+guarantee (`V2Txn.Typed`: 32-byte ids / addresses / keys / roots, 64-byte leaves and signatures, `uint64`
+fields below 2^64, currencies below 2^128, lengths below 2^64) -/
+theorem c12_wf_of_typed (t : V2Txn) (h : t.Typed) : WFG codeBindsClaimAddress t := wfg_of_typed _ h
+
+/-- `c12_v2_id_iff_partial` with the typing conditions as hypotheses -/
+theorem c12_v2_id_iff_typed_partial (H : List UInt8 → List UInt8) (hH : HashInj H) (t t' : V2Txn) (ht : t.Typed) (ht' : t'.Typed)
+    (hk : t.kinds = t'.kinds) (hc : t.siafundInputs.map (·.claimAddress) = t'.siafundInputs.map (·.claimAddress)) :
+    txid H t = txid H t' ↔ strip t = strip t' :=
+  c12_v2_id_iff_partial H hH t t' (wfg_of_typed _ ht) (wfg_of_typed _ ht') hk hc
+
+/-- what the id binds when the claim addresses are left free: `stripCode` -/
+theorem c12_v2_id_binds_code (H : List UInt8 → List UInt8) (hH : HashInj H) (t t' : V2Txn)
+    (hw : WFG codeBindsClaimAddress t) (hw' : WFG codeBindsClaimAddress t') (hk : t.kinds = t'.kinds) :
+    txid H t = txid H t' ↔ stripCode codeBindsClaimAddress t = stripCode codeBindsClaimAddress t' := by
+  constructor
+  · intro h
+    exact semEncodeG_inj _ hw hw' hk (List.append_cancel_left (hH _ _ h))
+  · intro h
+    simp only [txid, txidPre, txidPreG, semEncodeG_of_stripCode _ h]
+
+/-! ### the witnesses -/
+
+def z32 : List UInt8 := zeros 32
+def z64 : List UInt8 := zeros 64
+def fc0 : V2FileContract :=
+  { capacity := 0, filesize := 0, fileMerkleRoot := z32, proofHeight := 0, expirationHeight := 0,
+    renterOutput := ⟨0, z32⟩, hostOutput := ⟨0, z32⟩, missedHostValue := 0, totalCollateral := 0,
+    renterPublicKey := z32, hostPublicKey := z32, revisionNumber := 0, renterSignature := z64, hostSignature := z64 }
+def el0 : V2FileContractElement := { se := ⟨0, []⟩, id := z32, contract := fc0 }
+/-- B: the renewal of a contract whose final renter output is worth 648 · 2^64 H -/
+def rnB : V2Renewal :=
+  { finalRenterOutput := ⟨648 * W64, z32⟩, finalHostOutput := ⟨0, z32⟩,
+    renterRollover := 0, hostRollover := 0, newContract := fc0, renterSignature := z64, hostSignature := z64 }
+def txB : V2Txn := { (default : V2Txn) with resolutions := [⟨el0, .renewal rnB⟩] }
+/-- A: the expiration of the same contract, carrying 648 bytes of B's encoding as arbitrary data -/
+def txA : V2Txn :=
+  { (default : V2Txn) with resolutions := [⟨el0, .expiration⟩],
+                            arbitraryData := ((semEncodeG false txB).drop 104).take 648 }
+
+/-- **c12_v2_id_collision_witness**: the semantic encoding writes a resolution without its type
+tag: an expiration followed by (no attestations, 648 bytes of arbitrary data) is byte for byte a
+renewal whose first currency is 648 · 2^64.  Two well-formed transactions with different
+effect-bearing content, the same transaction id and the same input sighash for EVERY hash. -/
+theorem c12_v2_id_collision_witness :
+    (∀ b, WFG b txA ∧ WFG b txB ∧ semEncodeG b txA = semEncodeG b txB) ∧ strip txA ≠ strip txB ∧ txA.kinds ≠ txB.kinds ∧
+    ∀ H : List UInt8 → List UInt8, txid H txA = txid H txB ∧ H (inputSigPre txA) = H (inputSigPre txB) := by
+  have h : ∀ b, WFG b txA ∧ WFG b txB ∧ semEncodeG b txA = semEncodeG b txB := by
+    intro b; cases b <;> decide +kernel
+  refine ⟨h, by decide +kernel, by decide, fun H => ?_⟩
+  have := (h codeBindsClaimAddress).2.2
+  simp only [txid, txidPre, txidPreG, inputSigPre, inputSigPreG, this, and_self]
+
+def sfIn0 (claim : List UInt8) : V2SiafundInput :=
+  { parent := { se := ⟨0, []⟩, id := z32, output := ⟨1, z32⟩, claimStart := 0 }, claimAddress := claim, satisfied := default }
+def txC (claim : List UInt8) : V2Txn := { (default : V2Txn) with siafundInputs := [sfIn0 claim], siafundOutputs := [⟨1, z32⟩] }
+
+/-- **c12_v2_claim_address_unbound**: as long as the siafund-input loop of the semantic encoder does
+not write the claim address (`bindsClaim = false`, the code at the pinned commit), two transactions
+that pay the siafund claim to different addresses have the same id and the same input sighash. -/
+theorem c12_v2_claim_address_unbound :
+    WFG false (txC z32) ∧ WFG false (txC (List.replicate 32 1)) ∧ (txC z32).kinds = (txC (List.replicate 32 1)).kinds ∧
+    strip (txC z32) ≠ strip (txC (List.replicate 32 1)) ∧
+    semEncodeG false (txC z32) = semEncodeG false (txC (List.replicate 32 1)) ∧
+    (codeBindsClaimAddress = false → ∀ H : List UInt8 → List UInt8,
+      txid H (txC z32) = txid H (txC (List.replicate 32 1)) ∧ H (inputSigPre (txC z32)) = H (inputSigPre (txC (List.replicate 32 1)))) := by
+  refine ⟨by decide +kernel, by decide +kernel, by decide, by decide +kernel, by decide +kernel, ?_⟩
+  intro hb H
+  have : semEncodeG false (txC z32) = semEncodeG false (txC (List.replicate 32 1)) := by decide +kernel
+  simp only [txid, txidPre, txidPreG, inputSigPre, inputSigPreG, hb, this, and_self]
+
+/-- with the claim address written (`bindsClaim = true`) that pair is told apart -/
+example : semEncodeG true (txC z32) ≠ semEncodeG true (txC (List.replicate 32 1)) := by decide +kernel
+
+/-- the hypotheses of `c12_v2_id_iff_partial` are satisfiable by a non-trivial pair: two renewals that
+differ in a renewal signature only have equal ids -/
+example : WFG codeBindsClaimAddress txB ∧ HashInj id := ⟨by decide +kernel, fun _ _ h => h⟩
+
+/-! ### corollaries: what the id ignores -/
+
+/-- v2 input witnesses (the satisfied policies) -/
+theorem c12_v2_id_ignores_witnesses (H : List UInt8 → List UInt8) (t : V2Txn)
+    (w : V2SiacoinInput → SatisfiedPolicy) (w' : V2SiafundInput → SatisfiedPolicy) :
+    txid H { t with siacoinInputs := t.siacoinInputs.map (fun i => { i with satisfied := w i }),
+                    siafundInputs := t.siafundInputs.map (fun i => { i with satisfied := w' i }) } = txid H t :=
+  (c12_v2_id_of_strip H _ _ (by simp [strip, List.map_map, Function.comp_def])).1
+
+/-- contract signatures (formations, revisions) -/
+theorem c12_v2_id_ignores_contract_sigs (H : List UInt8 → List UInt8) (t : V2Txn) (rs hs : V2FileContract → List UInt8) :
+    txid H { t with fileContracts := t.fileContracts.map (fun fc => { fc with renterSignature := rs fc, hostSignature := hs fc }),
+                    revisions := t.revisions.map (fun r => { r with revision := { r.revision with renterSignature := rs r.revision, hostSignature := hs r.revision } }) } = txid H t :=
+  (c12_v2_id_of_strip H _ _ (by simp [strip, List.map_map, Function.comp_def, V2FileContract.nilSigs])).1
+
+/-- replace the four signatures of a renewal -/
+def resign (rs hs : V2Renewal → List UInt8) (nrs nhs : V2FileContract → List UInt8) : V2ResolutionBody → V2ResolutionBody
+  | .renewal r =>
+    .renewal { r with renterSignature := rs r, hostSignature := hs r,
+                      newContract := { r.newContract with renterSignature := nrs r.newContract, hostSignature := nhs r.newContract } }
+  | .storageProof p => .storageProof p
+  | .expiration => .expiration
+
+/-- renewal signatures (the renewal's own and its new contract's) -/
+theorem c12_v2_id_ignores_renewal_sigs (H : List UInt8 → List UInt8) (t : V2Txn)
+    (rs hs : V2Renewal → List UInt8) (nrs nhs : V2FileContract → List UInt8) :
+    txid H { t with resolutions := t.resolutions.map (fun r => { r with body := resign rs hs nrs nhs r.body }) } = txid H t := by
+  refine (c12_v2_id_of_strip H _ _ ?_).1
+  have : ∀ b, stripBody (resign rs hs nrs nhs b) = stripBody b := by
+    intro b; cases b <;> simp [resign, stripBody, V2Renewal.nilSigs, V2FileContract.nilSigs]
+  simp [strip, List.map_map, Function.comp_def, this]
+
+/-- parent element contents other than their ids (siacoin / siafund parents, revised and resolved contracts) -/
+theorem c12_v2_id_ignores_parent_contents (H : List UInt8 → List UInt8) (t : V2Txn)
+    (p1 : SiacoinElement → SiacoinElement) (p2 : SiafundElement → SiafundElement) (p3 : V2FileContractElement → V2FileContractElement)
+    (h1 : ∀ e, (p1 e).id = e.id) (h2 : ∀ e, (p2 e).id = e.id) (h3 : ∀ e, (p3 e).id = e.id) :
+    txid H { t with siacoinInputs := t.siacoinInputs.map (fun i => { i with parent := p1 i.parent }),
+                    siafundInputs := t.siafundInputs.map (fun i => { i with parent := p2 i.parent }),
+                    revisions := t.revisions.map (fun r => { r with parent := p3 r.parent }),
+                    resolutions := t.resolutions.map (fun r => { r with parent := p3 r.parent }) } = txid H t :=
+  (c12_v2_id_of_strip H _ _ (by simp [strip, List.map_map, Function.comp_def, idOnlySc, idOnlySf, idOnlyFc, h1, h2, h3])).1
+
+def reproof (f : V2StorageProof → List (List UInt8)) : V2ResolutionBody → V2ResolutionBody
+  | .storageProof p => .storageProof { p with proofIndex := { p.proofIndex with se := { p.proofIndex.se with merkleProof := f p } } }
+  | .renewal r => .renewal r
+  | .expiration => .expiration
+
+/-- Merkle proofs of state elements (the chain-index element of a storage proof; the parents'
+proofs are covered by `c12_v2_id_ignores_parent_contents`) -/
+theorem c12_v2_id_ignores_proofs (H : List UInt8 → List UInt8) (t : V2Txn) (f : V2StorageProof → List (List UInt8)) :
+    txid H { t with resolutions := t.resolutions.map (fun r => { r with body := reproof f r.body }) } = txid H t := by
+  refine (c12_v2_id_of_strip H _ _ ?_).1
+  have : ∀ b, stripBody (reproof f b) = stripBody b := by
+    intro b; cases b <;> simp [reproof, stripBody, V2StorageProof.dropIndexProof]
+  simp [strip, List.map_map, Function.comp_def, this]
+
+/-! ### corollaries: what the id sees -/
+
+/-- any observation of the effect-bearing content that differs makes the ids differ -/
+theorem c12_v2_id_sees_field {α} (f : V2Txn → α) (H : List UInt8 → List UInt8) (hH : HashInj H) (t t' : V2Txn)
+    (hw : WFG codeBindsClaimAddress t) (hw' : WFG codeBindsClaimAddress t') (hk : t.kinds = t'.kinds)
+    (hf : f (stripCode codeBindsClaimAddress t) ≠ f (stripCode codeBindsClaimAddress t')) : txid H t ≠ txid H t' := by
+  intro h
+  exact hf (by rw [(c12_v2_id_binds_code H hH t t' hw hw' hk).1 h])
+
+/-- instances: siacoin outputs, siafund outputs, miner fee, arbitrary data, attestations (signature
+included), the new Foundation address, the ids of all parents, contracts / revisions / renewals
+without their signatures, the storage proof without the chain-index proof -/
+theorem c12_v2_id_sees_fields (H : List UInt8 → List UInt8) (hH : HashInj H) (t t' : V2Txn)
+    (hw : WFG codeBindsClaimAddress t) (hw' : WFG codeBindsClaimAddress t') (hk : t.kinds = t'.kinds)
+    (h : t.siacoinOutputs ≠ t'.siacoinOutputs ∨ t.siafundOutputs ≠ t'.siafundOutputs ∨ t.minerFee ≠ t'.minerFee ∨
+      t.arbitraryData ≠ t'.arbitraryData ∨ t.attestations ≠ t'.attestations ∨ t.newFoundationAddress ≠ t'.newFoundationAddress ∨
+      t.siacoinInputs.map (·.parent.id) ≠ t'.siacoinInputs.map (·.parent.id) ∨
+      t.siafundInputs.map (·.parent.id) ≠ t'.siafundInputs.map (·.parent.id) ∨
+      t.fileContracts.map (·.nilSigs) ≠ t'.fileContracts.map (·.nilSigs) ∨
+      t.revisions.map (fun r => (r.parent.id, r.revision.nilSigs)) ≠ t'.revisions.map (fun r => (r.parent.id, r.revision.nilSigs)) ∨
+      t.resolutions.map (fun r => (r.parent.id, stripBody r.body)) ≠ t'.resolutions.map (fun r => (r.parent.id, stripBody r.body))) :
+    txid H t ≠ txid H t' := by
+  have key : ∀ {α} (f : V2Txn → α) (a b : α), f (stripCode codeBindsClaimAddress t) = a → f (stripCode codeBindsClaimAddress t') = b →
+      a ≠ b → txid H t ≠ txid H t' :=
+    fun f a b ha hb hab => c12_v2_id_sees_field f H hH t t' hw hw' hk (by rw [ha, hb]; exact hab)
+  have hsc : ∀ b (x : V2Txn), (stripCode b x).siacoinOutputs = x.siacoinOutputs ∧ (stripCode b x).siafundOutputs = x.siafundOutputs ∧
+      (stripCode b x).minerFee = x.minerFee ∧ (stripCode b x).arbitraryData = x.arbitraryData ∧ (stripCode b x).attestations = x.attestations ∧
+      (stripCode b x).newFoundationAddress = x.newFoundationAddress ∧
+      (stripCode b x).siacoinInputs.map (·.parent.id) = x.siacoinInputs.map (·.parent.id) ∧
+      (stripCode b x).siafundInputs.map (·.parent.id) = x.siafundInputs.map (·.parent.id) ∧
+      (stripCode b x).fileContracts = x.fileContracts.map (·.nilSigs) ∧
+      (stripCode b x).revisions.map (fun r => (r.parent.id, r.revision)) = x.revisions.map (fun r => (r.parent.id, r.revision.nilSigs)) ∧
+      (stripCode b x).resolutions.map (fun r => (r.parent.id, r.body)) = x.resolutions.map (fun r => (r.parent.id, stripBody r.body)) := by
+    intro b x
+    cases b <;> simp [stripCode, strip, List.map_map, Function.comp_def]
+  obtain ⟨a1, a2, a3, a4, a5, a6, a7, a8, a9, a10, a11⟩ := hsc codeBindsClaimAddress t
+  obtain ⟨b1, b2, b3, b4, b5, b6, b7, b8, b9, b10, b11⟩ := hsc codeBindsClaimAddress t'
+  rcases h with h | h | h | h | h | h | h | h | h | h | h
+  · exact key (·.siacoinOutputs) _ _ a1 b1 h
+  · exact key (·.siafundOutputs) _ _ a2 b2 h
+  · exact key (·.minerFee) _ _ a3 b3 h
+  · exact key (·.arbitraryData) _ _ a4 b4 h
+  · exact key (·.attestations) _ _ a5 b5 h
+  · exact key (·.newFoundationAddress) _ _ a6 b6 h
+  · exact key (fun x => x.siacoinInputs.map (·.parent.id)) _ _ a7 b7 h
+  · exact key (fun x => x.siafundInputs.map (·.parent.id)) _ _ a8 b8 h
+  · exact key (·.fileContracts) _ _ a9 b9 h
+  · exact key (fun x => x.revisions.map (fun r => (r.parent.id, r.revision))) _ _ a10 b10 h
+  · exact key (fun x => x.resolutions.map (fun r => (r.parent.id, r.body))) _ _ a11 b11 h
+
+/-! ## derived ids: distinct (kind, parent, index) ⇒ distinct preimages ⇒ distinct ids -/
+
+/-- one derivation of the form `hashAll("<distinguisher>", <32-byte id>[, <index>])` -/
+structure Derivation where
+  kind : V2Kind
+  parent : List UInt8
+  index : Nat
+deriving DecidableEq
+
+/-- parent ids have 32 bytes, indices fit 64 bits, kinds without an index carry 0 -/
+def Derivation.WF (d : Derivation) : Prop :=
+  d.parent.length = 32 ∧ d.index < W64 ∧ (d.kind.indexed = false → d.index = 0)
+
+instance (d : Derivation) : Decidable d.WF := by unfold Derivation.WF; infer_instance
+
+def Derivation.pre (d : Derivation) : List UInt8 := derivedPre d.kind d.parent d.index
+
+theorem kind_dists_prefix_free (k k' : V2Kind) (h : k ≠ k') : ¬ dist k.distinguisher <+: dist k'.distinguisher := by
+  cases k <;> cases k' <;> first | exact absurd rfl h | decide
+
+theorem u64le_inj {i j : Nat} (hi : i < W64) (hj : j < W64) (h : u64le i = u64le j) : i = j := by
+  have := congrArg leVal h
+  rwa [leVal_u64le hi, leVal_u64le hj] at this
+
+/-- the preimage determines kind, parent id and index -/
+theorem c12_derived_preimages_distinct (d d' : Derivation) (hd : d.WF) (hd' : d'.WF) (h : d.pre = d'.pre) : d = d' := by
+  obtain ⟨k, p, i⟩ := d
+  obtain ⟨k', p', i'⟩ := d'
+  simp only [Derivation.pre, derivedPre, List.append_assoc] at h
+  simp only [Derivation.WF] at hd hd'
+  by_cases hk : k = k'
+  · subst hk
+    have h2 := List.append_cancel_left h
+    obtain ⟨hp, hi⟩ := List.append_inj h2 (by rw [hd.1, hd'.1])
+    subst hp
+    cases hx : k.indexed
+    · rw [hd.2.2 hx, hd'.2.2 hx]
+    · rw [hx] at hi
+      simp only [if_true] at hi
+      rw [u64le_inj hd.2.1 hd'.2.1 hi]
+  · exact absurd h (append_ne_of_not_prefix (kind_dists_prefix_free k k' hk) (kind_dists_prefix_free k' k (Ne.symm hk)))
+
+/-- **c12_derived_ids_distinct**: two derivations of distinct (kind, parent id, index) — v2 siacoin /
+siafund output, contract, attestation, contract renter/host output, claim output, renewal id — never
+coincide (under `HashInj`).  In particular the i-th and j-th output of one transaction, an output and a
+contract of the same index, the renter and the host payout of a contract, and ids derived from
+different transactions are all different. -/
+theorem c12_derived_ids_distinct (H : List UInt8 → List UInt8) (hH : HashInj H) (d d' : Derivation)
+    (hd : d.WF) (hd' : d'.WF) (hne : d ≠ d') : H d.pre ≠ H d'.pre :=
+  fun h => hne (c12_derived_preimages_distinct d d' hd hd' (hH _ _ h))
+
+example : (⟨.contractOutput, z32, 0⟩ : Derivation).WF ∧ (⟨.contractOutput, z32, 1⟩ : Derivation).WF ∧
+    (⟨.contractOutput, z32, 0⟩ : Derivation) ≠ ⟨.contractOutput, z32, 1⟩ := by decide
+
+/-- the distinguisher of every derived id, of the transaction id and of the four sighashes is in the
+generated table, hence (`c12_distinguished_preimages_differ`) an id of one kind is never a sighash, a
+transaction id never a derived id, … -/
+theorem c12_id_and_sighash_domains_disjoint :
+    (∀ k : V2Kind, k.distinguisher ∈ Spec.distinguishers) ∧
+    (∀ d ∈ ["id/transaction", "sig/input", "sig/filecontract", "sig/filecontractrenewal", "sig/attestation", "commitment"],
+      d ∈ Spec.distinguishers) ∧
+    (∀ k : V2Kind, k.distinguisher ≠ "id/transaction" ∧ k.distinguisher ≠ "sig/input") := by
+  refine ⟨fun k => by cases k <;> decide, by decide, fun k => by cases k <;> decide⟩
+
+/-- a transaction id is never a derived id, and never an input sighash -/
+theorem c12_txid_not_derived (H : List UInt8 → List UInt8) (hH : HashInj H) (t t' : V2Txn) (d : Derivation) :
+    txid H t ≠ H d.pre ∧ txid H t ≠ H (inputSigPre t') := by
+  constructor
+  · intro h
+    have := hH _ _ h
+    simp only [txidPre, txidPreG, Derivation.pre, derivedPre, List.append_assoc] at this
+    exact c12_distinguished_preimages_differ (a := "id/transaction") (b := d.kind.distinguisher) (by decide)
+      (c12_id_and_sighash_domains_disjoint.1 d.kind) (Ne.symm (c12_id_and_sighash_domains_disjoint.2.2 d.kind).1) _ _ this
+  · intro h
+    have := hH _ _ h
+    simp only [txidPre, txidPreG, inputSigPre, inputSigPreG, List.append_assoc] at this
+    exact c12_distinguished_preimages_differ (a := "id/transaction") (b := "sig/input") (by decide) (by decide) (by decide) _ _ this
+
+/-! ## v1 transaction ids and the specifier-based derivations -/
+
+theorem v1BodySch_wf : v1BodySch.wf Env.default = true := by decide +kernel
+
+/-- **c12_v1_id_iff**: the v1 transaction id is the hash of everything but the signatures -/
+theorem c12_v1_id_iff (H : List UInt8 → List UInt8) (hH : HashInj H) (t t' : V1Txn) (hw : t.WF) (hw' : t'.WF) :
+    v1Txid H t = v1Txid H t' ↔ t.strip = t'.strip := by
+  constructor
+  · intro h
+    have hb : t.body = t'.body := C11.c11_injective Env.default_ok v1BodySch v1BodySch_wf _ _ hw hw' (hH _ _ h)
+    cases t; cases t'
+    simp only [V1Txn.strip, V1Txn.mk.injEq, and_true]
+    exact hb
+  · intro h
+    have hb : t.body = t'.body := by
+      cases t; cases t'
+      simp only [V1Txn.strip, V1Txn.mk.injEq, and_true] at h
+      exact h
+    simp only [v1Txid, v1TxidPre, v1BodyEnc, hb]
+
+/-- the id ignores the signatures -/
+theorem c12_v1_id_ignores_signatures (H : List UInt8 → List UInt8) (t : V1Txn) (sigs : Val) :
+    v1Txid H { t with signatures := sigs } = v1Txid H t := rfl
+
+theorem specifier_length (s : String) : (specifier s).length = 16 := by
+  simp only [specifier, copyInto, List.length_append, List.length_take, zeros, List.length_replicate]
+  omega
+
+theorem v1_spec_inj (k k' : V1Kind) (h : specifier k.spec = specifier k'.spec) : k = k' := by
+  cases k <;> cases k' <;> first | rfl | (exact absurd h (by decide))
+
+/-- **specifier-based v1 derivations** (`SiacoinOutputID`, `SiafundOutputID`, `FileContractID`): the
+preimage determines the kind, the transaction's effect-bearing content and the index -/
+theorem c12_v1_derived_preimages_distinct (k k' : V1Kind) (t t' : V1Txn) (i i' : Nat) (hw : t.WF) (hw' : t'.WF)
+    (hi : i < W64) (hi' : i' < W64) (h : v1DerivedPre k t i = v1DerivedPre k' t' i') :
+    k = k' ∧ t.body = t'.body ∧ i = i' := by
+  simp only [v1DerivedPre, List.append_assoc] at h
+  obtain ⟨hs, h2⟩ := List.append_inj h (by rw [specifier_length, specifier_length])
+  obtain ⟨hb, hi2⟩ := List.append_inj' h2 (by rw [u64le_length, u64le_length])
+  exact ⟨v1_spec_inj k k' hs, C11.c11_injective Env.default_ok v1BodySch v1BodySch_wf _ _ hw hw' hb, u64le_inj hi hi' hi2⟩
+
+theorem c12_v1_derived_ids_distinct (H : List UInt8 → List UInt8) (hH : HashInj H) (k k' : V1Kind) (t t' : V1Txn) (i i' : Nat)
+    (hw : t.WF) (hw' : t'.WF) (hi : i < W64) (hi' : i' < W64) (hne : k ≠ k' ∨ t.body ≠ t'.body ∨ i ≠ i') :
+    v1Derived H k t i ≠ v1Derived H k' t' i' := by
+  intro h
+  obtain ⟨a, b, c⟩ := c12_v1_derived_preimages_distinct k k' t t' i i' hw hw' hi hi' (hH _ _ h)
+  rcases hne with hne | hne | hne
+  · exact hne a
+  · exact hne b
+  · exact hne c
+
+/-- v1 transaction ids carry NO distinguisher: a derived id `H (specifier ‖ body ‖ i)` differs from a
+bare transaction id `H (body'')` only because an encoded body starts with its number of siacoin inputs
+as 8 little-endian bytes, and the 8th byte of each specifier is not zero.  Stated bound: fewer than
+2^56 siacoin inputs. -/
+theorem c12_v1_derived_vs_txid_partial (k : V1Kind) (t : V1Txn) (i : Nat) (ins : List Val) (rest : Val)
+    (hn : ins.length < 2 ^ 56) :
+    v1DerivedPre k t i ≠ enc Env.default v1BodySch (.pair (.list ins) rest) := by
+  intro h
+  have h7 := congrArg (fun l => l[7]?) h
+  have hs : (v1DerivedPre k t i)[7]? = (specifier k.spec)[7]? := by
+    simp only [v1DerivedPre, List.append_assoc]
+    rw [List.getElem?_append_left (by rw [specifier_length]; decide)]
+  have he : (enc Env.default v1BodySch (.pair (.list ins) rest))[7]? = some 0 := by
+    simp only [v1BodySch, Sch.seq, enc, List.append_assoc]
+    rw [List.getElem?_append_left (by rw [u64le_length]; decide)]
+    simp only [u64le, leBytes]
+    simp only [List.getElem?_cons_succ, List.getElem?_cons_zero, Option.some.injEq]
+    have : ins.length / 256 / 256 / 256 / 256 / 256 / 256 / 256 % 256 = 0 := by omega
+    rw [this]; rfl
+  have h7' : (v1DerivedPre k t i)[7]? = (enc Env.default v1BodySch (.pair (.list ins) rest))[7]? := h7
+  rw [hs, he] at h7'
+  cases k <;> exact absurd h7' (by decide)
+
+/-! ## sighashes bind their purpose and their era -/
+
+/-- a v2 sighash preimage: purpose distinguisher, replay prefix byte, covered content -/
+def sigPre (purpose : String) (prefixByte : UInt8) (content : List UInt8) : List UInt8 := dist purpose ++ [prefixByte] ++ content
+
+def sigPurposes : List String := ["sig/input", "sig/filecontract", "sig/filecontractrenewal", "sig/attestation"]
+
+/-- the model's four sighash preimages are `sigPre` with the v2 replay prefix -/
+theorem sigPre_eqs (t : V2Txn) (fc : V2FileContract) (r : V2Renewal) (a : Attestation) :
+    inputSigPre t = sigPre "sig/input" 2 (semEncode t) ∧
+    contractSigPre fc = sigPre "sig/filecontract" 2 (enc Env.default Spec.v2FileContract (fcVal fc.nilSigs)) ∧
+    renewalSigPre r = sigPre "sig/filecontractrenewal" 2 (enc Env.default Spec.v2FileContractRenewal (renewalVal r.nilSigs)) ∧
+    attestationSigPre a = sigPre "sig/attestation" 2 (enc Env.default Spec.attestation (attVal a.nilSig)) := ⟨rfl, rfl, rfl, rfl⟩
+
+/-- **c12_sighash_binds_era_and_purpose** (v2): equal sighash preimages have the same purpose, the same
+replay prefix and the same covered content — so (under `HashInj`) a signature made for one purpose or
+era is over a different hash than any signature for another purpose or era. -/
+theorem c12_sighash_binds_era_and_purpose (p p' : String) (hp : p ∈ sigPurposes) (hp' : p' ∈ sigPurposes)
+    (e e' : UInt8) (x x' : List UInt8) (h : sigPre p e x = sigPre p' e' x') : p = p' ∧ e = e' ∧ x = x' := by
+  have hsub : ∀ q ∈ sigPurposes, q ∈ Spec.distinguishers := by decide
+  by_cases hpp : p = p'
+  · subst hpp
+    simp only [sigPre, List.append_assoc] at h
+    have := List.append_cancel_left h
+    simp only [List.singleton_append, List.cons.injEq] at this
+    exact ⟨rfl, this.1, this.2⟩
+  · simp only [sigPre, List.append_assoc] at h
+    exact absurd h (c12_distinguished_preimages_differ (hsub p hp) (hsub p' hp') hpp _ _)
+
+/-- hash level: different purpose or era ⇒ different sighash -/
+theorem c12_sighash_purposes_distinct (H : List UInt8 → List UInt8) (hH : HashInj H) (p p' : String)
+    (hp : p ∈ sigPurposes) (hp' : p' ∈ sigPurposes) (e e' : UInt8) (x x' : List UInt8) (hne : p ≠ p' ∨ e ≠ e') :
+    H (sigPre p e x) ≠ H (sigPre p' e' x') := by
+  intro h
+  obtain ⟨a, b, _⟩ := c12_sighash_binds_era_and_purpose p p' hp hp' e e' x x' (hH _ _ h)
+  rcases hne with hne | hne
+  · exact hne a
+  · exact hne b
+
+/-- the v1 replay prefixes of the four eras are pairwise different byte strings -/
+theorem c12_v1_era_prefixes_distinct : (replayPrefixes.map (·.2)).Nodup := by decide
+
+/-- `State.replayPrefix` as a function of the parent height: the era table of the generated fact -/
+theorem c12_v1_replay_prefix_eras (v2Allow foundation asic h : Nat) :
+    replayPrefix v2Allow foundation asic h =
+      if h ≥ v2Allow then [2] else if h ≥ foundation then [1] else if h ≥ asic then [0] else [] := rfl
+
+/-- a whole-transaction sighash preimage of a transaction with at least one siacoin input starts with
+the input count and then the replay prefix of the era -/
+theorem wholeSigPre_head (p : List UInt8) (t : V1Txn) (v : Val) (vs : List Val) (rest : Val)
+    (hb : t.body = .pair (.list (v :: vs)) rest) (pid : List UInt8) (pki tl : Nat) (cs : List Nat) (x : List UInt8)
+    (h : wholeSigPre p t pid pki tl cs = some x) : ∃ y, x = u64le (vs.length + 1) ++ (p ++ y) := by
+  unfold wholeSigPre at h
+  simp only [] at h
+  split at h
+  · cases h
+  · rename_i sel _
+    injection h with h
+    subst h
+    have hr : List.range 9 = [0, 1, 2, 3, 4, 5, 6, 7, 8] := by decide
+    rw [hr, hb]
+    simp only [List.map_cons, List.flatten_cons, bodyFields, listOf, List.getD_cons_zero, encList, encElem, prefixed,
+      beq_self_eq_true, Bool.true_or, if_true, List.length_cons, List.append_assoc]
+    exact ⟨_, rfl⟩
+
+/-- **v1 sighashes bind their era**: whole-transaction sighash preimages made with the one-byte replay
+prefixes of two different eras (ASIC `[0]`, Foundation `[1]`, v2 `[2]`) differ for every transaction with
+a siacoin input — a signature cannot be replayed across those hardforks.  (The pre-ASIC era has the
+empty prefix: there the preimages differ in length, not proved here.) -/
+theorem c12_v1_sighash_binds_era (a b : UInt8) (hab : a ≠ b) (t t' : V1Txn) (v v' : Val) (vs vs' : List Val) (rest rest' : Val)
+    (hb : t.body = .pair (.list (v :: vs)) rest) (hb' : t'.body = .pair (.list (v' :: vs')) rest')
+    (pid pid' : List UInt8) (pki pki' tl tl' : Nat) (cs cs' : List Nat) (x x' : List UInt8)
+    (h : wholeSigPre [a] t pid pki tl cs = some x) (h' : wholeSigPre [b] t' pid' pki' tl' cs' = some x') : x ≠ x' := by
+  obtain ⟨y, rfl⟩ := wholeSigPre_head [a] t v vs rest hb pid pki tl cs x h
+  obtain ⟨y', rfl⟩ := wholeSigPre_head [b] t' v' vs' rest' hb' pid' pki' tl' cs' x' h'
+  intro he
+  obtain ⟨_, h2⟩ := List.append_inj he (by rw [u64le_length, u64le_length])
+  simp only [List.singleton_append, List.cons.injEq] at h2
+  exact hab h2.1
+
+/-! ## block ids
+
+`Block.ID = HashBytes(ParentID ‖ Nonce ‖ Timestamp ‖ Commitment)`; the commitment is the Merkle root
+(`blake2b.Accumulator`, = the plain tree `metaRoot` by `C16.c16_accumulator_root`) over
+* v1: `H(0x00 ‖ payout)` for every miner payout, then `H(0x00 ‖ txn)` for every transaction;
+* v2: `H(0x00 ‖ "sia/commitment|" ‖ 2 ‖ H(parent state) ‖ miner address)`, then `H(0x00 ‖ txn)` for every
+  v1 and v2 transaction (FULL encodings: signatures, witnesses and proofs included).
+
+Full statement:  c12_block_id_binds_all : two blocks with equal id are equal (v2: and were built on the
+same parent state for the same miner address).
+Proved in two layers: the header (`c12_block_id_binds_header`) and the commitment tree for blocks with
+the same number of leaves (`c12_block_commitment_binds_partial`); the GAP is the leaf count, which is
+bound only through the 0x00/0x01 domain separation of leaf and node hashes — not modelled here. The
+transaction encodings determine the transactions by C11 (`c11_injective`, `c11_v2txn_injective`). -/
+
+/-- the header: equal ids ⇒ equal parent id, nonce, timestamp and commitment -/
+theorem c12_block_id_binds_header (H : List UInt8 → List UInt8) (hH : HashInj H) (p p' c c' : List UInt8) (n n' ts ts' : Nat)
+    (hp : p.length = 32) (hp' : p'.length = 32) (hn : n < W64) (hn' : n' < W64) (hts : ts < W64) (hts' : ts' < W64)
+    (h : H (blockIdPre p n ts c) = H (blockIdPre p' n' ts' c')) : p = p' ∧ n = n' ∧ ts = ts' ∧ c = c' := by
+  have h0 := hH _ _ h
+  simp only [blockIdPre, List.append_assoc] at h0
+  obtain ⟨e1, h1⟩ := List.append_inj h0 (by rw [hp, hp'])
+  obtain ⟨e2, h2⟩ := List.append_inj h1 (by rw [u64le_length, u64le_length])
+  obtain ⟨e3, e4⟩ := List.append_inj h2 (by rw [u64le_length, u64le_length])
+  exact ⟨e1, u64le_inj hn hn' e2, u64le_inj hts hts' e3, e4⟩
+
+section commitment
+open Sia.Rhp
+variable {D : Type} [HashOps D]
+
+/-- the leaves of the v2 commitment tree: the state/miner leaf, then one leaf per transaction encoding -/
+def commitLeaves (leafH : List UInt8 → D) (stateHash minerAddr : List UInt8) (txnEncs : List (List UInt8)) : List D :=
+  leafH (commitmentLeafPre stateHash minerAddr) :: txnEncs.map (fun e => leafH (v1LeafPre e))
+
+/-- the leaves of the v1 block Merkle tree: payouts, then transactions -/
+def v1Leaves (leafH : List UInt8 → D) (payoutEncs txnEncs : List (List UInt8)) : List D :=
+  (payoutEncs ++ txnEncs).map (fun e => leafH (v1LeafPre e))
+
+/-- **c12_block_commitment_binds_partial** (v2): under node- and leaf-hash injectivity, for blocks with the
+same number of transactions, equal commitments ⇒ equal parent-state hash, equal miner address, equal
+transaction encodings (each with its signatures, witnesses and Merkle proofs). -/
+theorem c12_block_commitment_binds_partial (leafH : List UInt8 → D) (hN : NodeInj D) (hL : ∀ a b, leafH a = leafH b → a = b)
+    (sh sh' ma ma' : List UInt8) (txns txns' : List (List UInt8)) (hsh : sh.length = 32) (hsh' : sh'.length = 32)
+    (hlen : txns.length = txns'.length)
+    (h : metaRoot (commitLeaves leafH sh ma txns) = metaRoot (commitLeaves leafH sh' ma' txns')) :
+    sh = sh' ∧ ma = ma' ∧ txns = txns' := by
+  have hl := C16.c16_root_injective hN _ _ (by simp [commitLeaves, hlen]) h
+  simp only [commitLeaves, List.cons.injEq] at hl
+  obtain ⟨h0, hr⟩ := hl
+  have h1 := hL _ _ h0
+  simp only [commitmentLeafPre, List.append_assoc] at h1
+  have h2 := List.append_cancel_left (List.append_cancel_left (List.append_cancel_left h1))
+  obtain ⟨e1, e2⟩ := List.append_inj h2 (by rw [hsh, hsh'])
+  refine ⟨e1, e2, ?_⟩
+  exact map_inj_of_inj (fun a a' ha => by have := hL _ _ ha; simpa [v1LeafPre] using this) hr
+
+/-- v1: equal Merkle roots ⇒ equal payout and transaction encodings (same number of leaves) -/
+theorem c12_block_merkle_root_binds_partial (leafH : List UInt8 → D) (hN : NodeInj D) (hL : ∀ a b, leafH a = leafH b → a = b)
+    (ls ls' : List (List UInt8)) (hlen : ls.length = ls'.length)
+    (h : metaRoot (v1Leaves leafH ls []) = metaRoot (v1Leaves leafH ls' [])) : ls = ls' := by
+  have hl := C16.c16_root_injective hN _ _ (by simp [v1Leaves, hlen]) h
+  simp only [v1Leaves, List.append_nil] at hl
+  exact map_inj_of_inj (fun a a' ha => by have := hL _ _ ha; simpa [v1LeafPre] using this) hl
+
+/-- the hypotheses are satisfiable (free term algebra of C16) and the statement is not vacuous -/
+example : NodeInj C16.T ∧ (∀ a b : List UInt8, (C16.T.lf a) = C16.T.lf b → a = b) :=
+  ⟨C16.T_nodeInj, fun a b h => by cases h; rfl⟩
+
+end commitment
 
 end C12
